@@ -145,7 +145,10 @@ PROPS = {
         rule=ALGO_RULE, trusted=ALGO_TRUST,
         level_text='Lean 4 theorems, for all texts and patterns of any length: PrefixMatch, SuffixMatch and EqualMatch are total (no index '
                    'out of range), sound and complete — a match is reported exactly when the term occurs after the documented '
-                   'whitespace trimming, and the reported range is that occurrence; FuzzyMatchV1 reports a match exactly when the '
+                   'whitespace trimming, and the reported range is that occurrence; ExactMatchNaive and ExactMatchBoundary are total '
+                   'and sound in both scan directions (the reported range is an occurrence of the term), and ExactMatchNaive is '
+                   'complete in fzf\'s three schemes (no match reported only if the term occurs nowhere: pre-filter, restart after '
+                   'a partial match and the iteration bound lose nothing); FuzzyMatchV1 reports a match exactly when the '
                    'pattern is a subsequence of the folded text, in both scan directions, for byte and rune representation; the ASCII '
                    'pre-filter shared by the fuzzy and exact matchers never rejects a text that contains the pattern; calculateScore '
                    'never indexes out of range on the ranges these matchers pass; the witness judgement applied to every '
@@ -153,9 +156,9 @@ PROPS = {
                    'the regenerated slab size; a successful checked run of the array-faithful V2 model implies the raw run cannot '
                    'panic. The models of all seven match functions are tied to /repo by an in-process differential run; the '
                    'executable spec (witness, occurrence, anchors with documented trimming; brute-force non-existence) judges every '
-                   'answer, which is what decides V2 and the exact / boundary matcher per case.',
-        level_note='Partial: soundness/completeness of each matcher for ALL inputs is not yet a Lean theorem; it is checked '
-                   'per generated case by the spec oracle. Trusted: Lean kernel, standard axioms, harness, Go unicode tables.',
+                   'answer, which is what decides V2 and the boundary conditions of ExactMatchBoundary per case.',
+        level_note='Partial: soundness/completeness of FuzzyMatchV2 and the completeness of ExactMatchBoundary (its boundary '
+                   'conditions) for ALL inputs are not Lean theorems; they are checked per generated case by the spec oracle. Trusted: Lean kernel, standard axioms, harness, Go unicode tables.',
         technique='Lean 4 proof (spec = Sublist, slab lemma, overflow guard) + model/implementation correspondence with spec oracle',
     ),
     'C03': dict(
